@@ -33,7 +33,7 @@ PRE_CALLS = ["inquiry", "testunitready", "readcapacity10", "readcapacity16", "mo
 
 def partitions(tier):
     parts = [["blocksize", n] for n in BLOCK_CLASSES + ["ATAPassThrough12", "ATAPassThrough16"]]
-    parts += [["opcode"], ["prin"], ["xcopy", 4], ["xcopy", 5], ["tid"]]
+    parts += [["opcode"], ["prin"], ["xcopy", 4], ["xcopy", 5], ["tid"], ["none_blocksize"]]
     parts += [["race", inv, valid] for inv in RACE_INVALID for valid in RACE_VALID]
     return parts
 
@@ -135,6 +135,30 @@ def run_case(case, obs=None):
     if case[0] == "race":
         return run_race(case[1], case[2], case[3])
     kind = case[0]
+    if kind == "none_blocksize":
+        # "no block size" spelled None (SCSI(dev, blocksize=None) or s.blocksize = None): every block transfer is refused, nothing sent
+        _, method, via, how = case
+        rig = harness.Rig(via, 0x00)
+        try:
+            if how == "ctor":
+                from pyscsi.pyscsi.scsi import SCSI
+                s = SCSI(rig.dev, None)
+            else:
+                s = rig.facade(blocksize=512)
+                s.blocksize = None
+            n0 = len(rig.target.log)
+            args = {"read": (1, 2), "write": (1, 2, bytearray(1024)), "writesame": (1, 2, bytearray(512))}[method.rstrip("0126")]
+            oc = outcome_of(lambda: getattr(s, method)(*args))
+            sent = len(rig.target.log) - n0
+        finally:
+            rig.close()
+        where = "%s through a facade whose block size is None (%s) over %s" % (method, how, via)
+        v = []
+        if oc[0] == "ret":
+            v.append(("none_blocksize/not_refused", "%s: returned %r" % (where, oc[1])))
+        if sent:
+            v.append(("none_blocksize/sent", "%s: %d command(s) reached the device" % (where, sent)))
+        return v
     if kind == "blocksize":
         _, name, via, point, bs = case[:5]
         withdata = len(case) > 5 and case[5]
@@ -470,6 +494,11 @@ def run_partition(part, tier, seed):
                     for n in (1, 2):
                         for pre in itertools.product(PRE_CALLS, repeat=n):
                             do(["blocksize", name, via, point, 0, 0, list(pre)])
+    elif kind == "none_blocksize":
+        for method in ("read10", "read12", "read16", "write10", "write12", "write16", "writesame10", "writesame16"):
+            for via in ("sgio", "iscsi"):
+                for how in ("ctor", "setter"):
+                    do(["none_blocksize", method, via, how])
     elif kind == "opcode":
         for target in ("init_cdb", "TestUnitReady", "Read10", "Inquiry"):
             for v in range(256):
